@@ -16,7 +16,7 @@ import (
 )
 
 type c08Req struct {
-	Part    string `json:"part"` // binary | unary | exp | batch | lists | algebra | zero
+	Part    string `json:"part"` // binary | unary | exp | batch | lists | algebra | zero | real
 	Mode    string `json:"mode"`
 	NRandom int    `json:"nrandom"`
 	Shard   int    `json:"shard"`
@@ -151,6 +151,27 @@ func c08(raw json.RawMessage, resp *drv.Response) error {
 			resp.Count(fmt.Sprintf("zero/%d/%s", i, estr(b)), false)
 			if err == nil {
 				bad("zero/accepted", "inversion / division of zero is accepted", nil)
+			}
+		}
+		// the equality assertion: equal elements pass; elements that differ by a unit or by (+-2^k, -+1) - the differences that an
+		// assertion folding both coordinates into one word would not see - are rejected
+		for i := 0; i < 3; i++ {
+			a := pick(i + 1)
+			var deltas []gf.E
+			deltas = append(deltas, gf.E{big.NewInt(0), big.NewInt(0)}, gf.E{big.NewInt(1), big.NewInt(0)}, gf.E{big.NewInt(0), big.NewInt(1)})
+			for _, k := range []int{0, 1, 31, 32, 33, 62, 63} {
+				deltas = append(deltas, gf.E{gf.Mod(pow2(k)), gf.Neg(one)}, gf.E{gf.Neg(pow2(k)), big.NewInt(1)})
+			}
+			for di, dl := range deltas {
+				b := gf.EAdd(a, dl)
+				_, err := runQE(req.Mode, []gf.E{a, b}, nil, func(chip *gl.Chip, api frontend.API, v []gl.QuadraticExtensionVariable, x []frontend.Variable) []gl.QuadraticExtensionVariable {
+					chip.AssertIsEqualExtension(v[0], v[1])
+					return nil
+				})
+				resp.Count(fmt.Sprintf("equal/%s/%d", estr(a), di), false)
+				if (err == nil) != (di == 0) {
+					bad("equal/wrong", fmt.Sprintf("AssertIsEqualExtension(%s, %s): accepted=%v", estr(a), estr(b), err == nil), nil)
+				}
 			}
 		}
 	case "exp":
@@ -336,6 +357,146 @@ func c08(raw json.RawMessage, resp *drv.Response) error {
 				if !got[k].Eq(want[k]) {
 					bad("algebra/wrong op="+names[k], fmt.Sprintf("component %d: %s vs %s", k, estr(got[k]), estr(want[k])), nil)
 					break
+				}
+			}
+		}
+	case "real":
+		// programs of extension-field operations compiled with gnark's real builders (R1CS, SCS) and solved with the honest hints; a
+		// register may be used again after it was an operand (a builder that writes a multiply-accumulate into the storage of an operand
+		// changes it behind the caller's back - nothing of that exists on the test engine); in the second and third pass register 3
+		// resp. 2 is a compile-time constant of the circuit.  Unreduced results are only used as addends of multiply-adds and of
+		// non-reducing additions (the operand ranges the gadgets state).
+		type step struct {
+			op      string
+			i, j, k int
+		}
+		fixed := [][]step{
+			{{"muladdnr", 0, 2, 0}, {"add", 0, 1, 0}, {"mul", 0, 1, 0}},
+			{{"addnr", 0, 1, 0}, {"muladdnr", 0, 2, 3}, {"muladd", 0, 1, 3}, {"muladd", 1, 2, 3}, {"muladdnr", 1, 0, 3}},
+			{{"muladd", 0, 2, 0}, {"sub", 0, 1, 0}, {"muladdnr", 2, 0, 0}, {"scalarmul", 0, 1, 0}},
+			{{"mulnr", 0, 2, 0}, {"muladdnr", 1, 2, 3}, {"muladd", 0, 1, 3}, {"submul", 0, 1, 2}},
+		}
+		progs := fixed
+		ops := []string{"add", "sub", "mul", "muladd", "submul", "addnr", "mulnr", "muladdnr", "scalarmul"}
+		for r := 0; r < 6+req.NRandom; r++ {
+			var prog []step
+			reduced := []bool{true, true, true}
+			pickReg := func(needReduced bool) int {
+				for {
+					x := rng.Intn(len(reduced))
+					if rng.Intn(2) == 0 { // favour the inputs and the most recent result: reuse after use is the point
+						x = []int{0, 1, 2, len(reduced) - 1}[rng.Intn(4)]
+					}
+					if !needReduced || reduced[x] {
+						return x
+					}
+				}
+			}
+			for n := 0; n < 4+rng.Intn(3); n++ {
+				op := ops[rng.Intn(len(ops))]
+				st := step{op: op}
+				switch op {
+				case "addnr":
+					st.i, st.j = pickReg(false), pickReg(false)
+				case "add", "sub":
+					st.i, st.j = pickReg(true), pickReg(true)
+				case "mul", "mulnr", "scalarmul":
+					st.i, st.j = pickReg(true), pickReg(true)
+				case "muladd", "muladdnr":
+					st.i, st.j, st.k = pickReg(true), pickReg(true), pickReg(false)
+				case "submul":
+					st.i, st.j, st.k = pickReg(true), pickReg(true), pickReg(true)
+				}
+				prog = append(prog, st)
+				reduced = append(reduced, !(op == "addnr" || op == "mulnr" || op == "muladdnr"))
+			}
+			progs = append(progs, prog)
+		}
+		for pi, prog := range progs {
+			in := []gf.E{randE(rng), randE(rng), randE(rng)}
+			if pi%3 == 0 {
+				in[pi%2] = edgeE(rng)
+			}
+			regs := append([]gf.E{}, in...)
+			for _, st := range prog {
+				a, b := regs[st.i], regs[st.j]
+				var o gf.E
+				switch st.op {
+				case "add", "addnr":
+					o = gf.EAdd(a, b)
+				case "sub":
+					o = gf.ESub(a, b)
+				case "mul", "mulnr":
+					o = gf.EMul(a, b)
+				case "muladd", "muladdnr":
+					o = gf.EAdd(gf.EMul(a, b), regs[st.k])
+				case "submul":
+					o = gf.EMul(gf.ESub(a, b), regs[st.k])
+				case "scalarmul":
+					o = gf.EScal(a, b[0])
+				}
+				regs = append(regs, o)
+			}
+			var flat, want []*big.Int
+			for _, e := range in {
+				flat = append(flat, e[0], e[1])
+			}
+			for _, e := range regs[3:] {
+				want = append(want, gf.Mod(e[0]), gf.Mod(e[1]))
+			}
+			for constReg := -1; constReg <= 2; constReg++ {
+				if constReg == 0 {
+					continue
+				}
+				constReg := constReg
+				body := func(api frontend.API, iv []frontend.Variable) []frontend.Variable {
+					chip := gl.New(api)
+					vs := []gl.QuadraticExtensionVariable{qe(iv, 0), qe(iv, 2), qe(iv, 4)}
+					if constReg > 0 {
+						vs[constReg] = gl.QuadraticExtensionVariable{gl.NewVariable(new(big.Int).Set(in[constReg][0])), gl.NewVariable(new(big.Int).Set(in[constReg][1]))}
+					}
+					for _, st := range prog {
+						a, b := vs[st.i], vs[st.j]
+						var o gl.QuadraticExtensionVariable
+						switch st.op {
+						case "add":
+							o = chip.AddExtension(a, b)
+						case "addnr":
+							o = chip.AddExtensionNoReduce(a, b)
+						case "sub":
+							o = chip.SubExtension(a, b)
+						case "mul":
+							o = chip.MulExtension(a, b)
+						case "mulnr":
+							o = chip.MulExtensionNoReduce(a, b)
+						case "muladd":
+							o = chip.MulAddExtension(a, b, vs[st.k])
+						case "muladdnr":
+							o = chip.MulAddExtensionNoReduce(a, b, vs[st.k])
+						case "submul":
+							o = chip.SubMulExtension(a, b, vs[st.k])
+						case "scalarmul":
+							o = chip.ScalarMulExtension(a, b[0])
+						}
+						vs = append(vs, o)
+					}
+					var outs []frontend.Variable
+					for si, st := range prog { // read (and reduce the unreduced ones) only after the whole program has run
+						v := vs[3+si]
+						if st.op == "addnr" || st.op == "mulnr" || st.op == "muladdnr" {
+							v = chip.ReduceExtension(v)
+						}
+						outs = append(outs, v[0].Limb, v[1].Limb)
+					}
+					return outs
+				}
+				for _, sys := range []string{"r1cs", "scs"} {
+					stage, err := solveOnBuilder(sys, flat, want, body)
+					resp.Count(fmt.Sprintf("real/%s/%d/%d/%s", sys, constReg, pi, estr(in[0])), false)
+					if err != nil {
+						resp.Violate(fmt.Sprintf("c08/program-real/%s sys=%s", stage, sys),
+							fmt.Sprintf("program %v on %s %s %s (constant register: %d) compiled with the real %s builder: the field's results are not accepted (%s: %s)", prog, estr(in[0]), estr(in[1]), estr(in[2]), constReg+1, sys, stage, firstLine(err)), map[string]any{"prog": fmt.Sprint(prog), "sys": sys})
+					}
 				}
 			}
 		}
